@@ -131,6 +131,18 @@ def run_kernel_check(pid, tier, replay, level_text_extra=""):
             txt = program_text(tp, r["prog"])
             rp = vlib.save_replay(pid, "viol_%s_%s_%d.txt" % (r["rule"][:40], vn, r["prog"]), txt)
             v.violation("%s|%s" % (pid, r["rule"]), rp, "%s program %d, trace line %d of %s" % (desc, r["prog"], r["line"], tp))
+        if desc.startswith("TLC-exported programs ") and vn == "rel" and not replay:
+            # does the real code take, event for event, the path the model predicts for these programs?
+            import checks.kmodel as kmodel
+            name = desc.split()[-1]
+            np_, drifts = kmodel.conformance(pid, name, tp, v)
+            d = v.cov.setdefault("model_conformance", {})
+            d[name] = {"programs": np_, "drifting_programs": len(drifts), "first_drifts": [list(x) for x in drifts[:5]]}
+            if drifts:
+                msg = "DRIFT: %d of %d exported programs of %s take another path on the real code than in the model (first: trace line %s, model %s / code %s)" % (
+                    len(drifts), np_, name, drifts[0][0], drifts[0][1], drifts[0][2])
+                v.notes.append(msg)
+                print(msg)
         if len(v.cov["samples"]) < 4:
             with open(progs) as f:
                 txt = f.read().split("end\n")
